@@ -17,6 +17,8 @@ from models import some, none
 from tokens import TS, TOpq
 from build import B, KINDS, MEMBER_MAP_NAMES
 import kernels
+sys.path.insert(0, os.path.join(VERIF, 'oracle'))
+import docs
 
 GHOST_NAMES = ['ghost', 'ghost_owned', 'ghost_ref']
 TYS = ('X', 'Y')
@@ -36,10 +38,14 @@ class Model:
 
     def __init__(self, e, b, A, G, mtab, gtab):
         self.A, self.G = A, G
-        names = [n for n in MEMBER_MAP_NAMES if n in mtab]
+        names = list(MEMBER_MAP_NAMES)
         self.names = names
+        dk = docs.doc_kinds()
+        NONE = (False, (False,) * 6)            # a name the parser does not accept as a mapping instruction is ignored
+        mtab = {n: mtab.get(n, NONE) for n in names}
         self.n, self.ded, self.fall, self.bits = [], [], [], []
         self.gn, self.gded, self.gbits = [], [], []
+        self.dfall, self.dbits, self.dgbits = [], [], []      # the documented meaning (oracle side)
         attrs = []
         for i in range(A):
             n = b.fresh_int('n%d' % i, 0, len(names) - 1)
@@ -47,6 +53,8 @@ class Model:
             fall = ite_or(n, [k for k, nm in enumerate(names) if mtab[nm][0]])
             bits = [ite_or(n, [k for k, nm in enumerate(names) if mtab[nm][1][j]]) for j in range(6)]
             self.n.append(n); self.ded.append(ded); self.fall.append(fall); self.bits.append(bits)
+            self.dfall.append(ite_or(n, [k for k, nm in enumerate(names) if docs.doc_bits(nm, dk)[1]]))
+            self.dbits.append([ite_or(n, [k for k, nm in enumerate(names) if docs.doc_bits(nm, dk)[0][j]]) for j in range(6)])
             cty = b.opt(ded != 0, b.type_path(SymStr(ded - 1, TYS)))
             core = b.mk('attr::MemberAttrCore', container_ty=cty, member=none(), action=some(b.leaf('expr', 'e%d' % i)))
             attrs.append(b.mk('attr::MemberAttr', attr=core, fallible=fall, original_instr=SymStr(n, names), applicable_to=b.appl(bits)))
@@ -56,6 +64,7 @@ class Model:
             ded = b.fresh_int('gded%d' % j, 0, len(TYS))
             bits = [ite_or(n, [k for k, nm in enumerate(GHOST_NAMES) if gtab[nm][jj]]) for jj in range(6)]
             self.gn.append(n); self.gded.append(ded); self.gbits.append(bits)
+            self.dgbits.append([ite_or(n, [k for k, nm in enumerate(GHOST_NAMES) if docs.ghost_kinds(nm)[jj]]) for jj in range(6)])
             cty = b.opt(ded != 0, b.type_path(SymStr(ded - 1, TYS)))
             core = b.mk('attr::FieldGhostAttrCore', container_ty=cty, action=some(b.leaf('expr', 'g%d' % j)))
             ghosts.append(b.mk('attr::GhostAttr', attr=core, applicable_to=b.appl(bits)))
@@ -79,20 +88,20 @@ class Model:
         st = self.steps(kind, f)
         for s in range(len(st) - 1, -1, -1):
             ki, fs, enabled = st[s]
-            qual = z3.And(enabled, self.fall[i] == fs, self.bits[i][ki])
+            qual = z3.And(enabled, self.dfall[i] == fs, self.dbits[i][ki])
             r = z3.If(z3.And(qual, self.ded[i] == q), 2 * s, z3.If(z3.And(qual, self.ded[i] == 0), 2 * s + 1, r))
         return r
 
     def ghost_ok(self, j, kind, q):
         ki = KINDS.index(kind)
-        return z3.And(self.gbits[j][ki], z3.Or(self.gded[j] == q, self.gded[j] == 0))
+        return z3.And(self.dgbits[j][ki], z3.Or(self.gded[j] == q, self.gded[j] == 0))
 
     def spec(self, outcome, kind, f, q):
         ki = KINDS.index(kind)
         any_ghost = z3.Or([self.ghost_ok(j, kind, q) for j in range(self.G)]) if self.G else z3.BoolVal(False)
         if outcome[0] == 'ghost':
             j = outcome[1]
-            ded_exists = z3.Or([z3.And(self.gbits[k][ki], self.gded[k] == q) for k in range(self.G)])
+            ded_exists = z3.Or([z3.And(self.dgbits[k][ki], self.gded[k] == q) for k in range(self.G)])
             return z3.And(self.ghost_ok(j, kind, q), z3.Or(self.gded[j] == q, z3.Not(ded_exists)))
         ranks = [self.rank(i, kind, f, q) for i in range(self.A)]
         if outcome[0] == 'none':
@@ -308,7 +317,7 @@ def check_simple_lookups(ctx, N):
         ki = KINDS.index(kind)
 
         def bit(i, k):
-            return ite_or(ns[i], [x for x, nm in enumerate(names) if mtab[nm][1][k]])
+            return ite_or(ns[i], [x for x, nm in enumerate(names) if docs.doc_bits(nm)[0][k]])
         for r in res:
             if r.kind != 'ok':
                 ctx.violation('get_for_kind:panic', r.value, 'panic', {'input': None}); continue
